@@ -15,7 +15,8 @@ import (
 
 var c16CallIDs = []string{"a", "a-b", "b", "a-t"}
 var c16Tags = []string{"t", "u", "t-u", "a", ""} // "" = absent
-var c16URIs = []string{"sip:u@h", "sip:h", "sip:u@h:5060", "sip:v@h", "sip:u@g", "sips:u@h", "tel:+1", "urn:service:sos"}
+// the last two: a user with an escaped ':' is not the user "c" with the password "1"
+var c16URIs = []string{"sip:u@h", "sip:h", "sip:u@h:5060", "sip:v@h", "sip:u@g", "sips:u@h", "tel:+1", "urn:service:sos", "sip:c%3A1@h", "sip:c:1@h"}
 var c16Decos = []string{"display", "uriparam", "urihdr", "hdrparam", "compact", "oddcase", "addrspec", "tag-last"}
 
 type c16Case struct {
